@@ -1291,12 +1291,16 @@ Qed.
 Lemma asm_vol_strip pol ffs3 h buf files :
   asm_vol pol ffs3 h buf (map strip files) = asm_vol pol ffs3 h buf files.
 Proof using Type. clear_sec.
-  unfold asm_vol. destruct files as [|f r]; [reflexivity|]. cbn [map].
+  unfold asm_vol.
+  replace (match map strip files with [] => true | _ => false end)
+    with (match files with [] => true | _ => false end) by (destruct files; reflexivity).
+  match goal with |- (if ?c then _ else _) = _ => destruct c end; [reflexivity|].
   destruct (v_length h <? zlen buf); [reflexivity|].
   destruct (v_blocks h) as [|b0 bl] eqn:Eb; [reflexivity|].
   destruct (v_dataoff h <? v_hdrlen h); [reflexivity|].
+  destruct (zlen buf <? v_dataoff h); [reflexivity|].
   destruct (of_opt 202 (slice 0 (v_dataoff h) buf)) as [hdr| | |]; cbn [bind]; try reflexivity.
-  change (strip f :: map strip r) with (map strip (f :: r)). rewrite place_files_strip. reflexivity.
+  rewrite place_files_strip. reflexivity.
 Qed.
 
 Lemma asm_strip : forall n st, asm' (strip n) st = ostrip (asm' n st).
@@ -1700,10 +1704,11 @@ Lemma asm_vol_ffs3 pol h buf files h' nb :
   asm_vol pol true h buf files = Ok (h', nb) -> files <> [] -> v_guid h = FFS2 ->
   v_guid h' = FFS3 /\ sub 16 16 nb = FFS3.
 Proof using Type. clear_sec.
-  unfold asm_vol. intros H Hne Hg. destruct files as [|f0 fr]; [congruence|].
+  unfold asm_vol. intros H Hne Hg. destruct files as [|f0 fr]; [congruence|]. cbn [andb] in H.
   destruct (v_length h <? zlen buf); [discriminate|].
   destruct (v_blocks h) as [|b0 bl] eqn:Eb; [discriminate|].
   destruct (v_dataoff h <? v_hdrlen h); [discriminate|].
+  destruct (zlen buf <? v_dataoff h); [discriminate|].
   destruct (of_opt 202 (slice 0 (v_dataoff h) buf)) as [hdr| | |]; cbn [bind] in H; try discriminate.
   destruct (place_files pol _ hdr (v_dataoff h) (f0 :: fr)) as [b1| | |]; cbn [bind] in H; try discriminate.
   destruct ((v_length h <? zlen b1) && negb (v_resizable h)); [discriminate|].
@@ -1867,10 +1872,11 @@ Theorem nested_volume_grows pol ffs3 h buf files h' nb c s rest hdr b1 :
   sub 32 8 nb = le_enc 8 len /\ sub 56 4 nb = le_enc 4 ((len / s) mod U32).
 Proof using Type. clear_sec.
   intros Hne Hres Hbl Hsl Hpl Hgrow H. cbv zeta. unfold asm_vol in H.
-  destruct files as [|f0 fr]; [congruence|].
+  destruct files as [|f0 fr]; [congruence|]. cbn [andb] in H.
   destruct (v_length h <? zlen buf); [discriminate|].
   rewrite Hbl in H.
   destruct (v_dataoff h <? v_hdrlen h); [discriminate|].
+  destruct (zlen buf <? v_dataoff h); [discriminate|].
   rewrite Hsl, Hres in H. cbn [of_opt bind] in H. rewrite Hpl in H. cbn [bind] in H.
   replace (v_length h <? zlen b1) with true in H by lia. cbn [negb andb] in H.
   destruct (s =? 0); [discriminate|]. cbn [bind] in H.
